@@ -15,6 +15,8 @@ from liquid2.exceptions import LiquidTypeError
 from liquid2.filter import sequence_arg
 from liquid2.undefined import is_undefined
 
+from .map_filter import _Null
+
 if TYPE_CHECKING:
     from liquid2 import Environment
     from liquid2 import RenderContext
@@ -176,4 +178,8 @@ class CompactFilter:
                     f"can't read property '{key}'", token=None
                 ) from err
 
-        return [itm for itm in left if itm is not None and not is_undefined(itm)]
+        return [
+            itm
+            for itm in left
+            if itm is not None and not isinstance(itm, _Null) and not is_undefined(itm)
+        ]
